@@ -13,7 +13,7 @@ import (
 )
 
 // Families in execution/reporting order. "determinism" is driven separately (see determinism.go).
-var Families = []string{"mix", "market", "expiry", "basket", "bridge", "roles", "params", "ids", "genesis", "data", "determinism"}
+var Families = []string{"corpus", "mix", "market", "expiry", "basket", "bridge", "roles", "params", "ids", "genesis", "data", "determinism"}
 
 // QuickCounts is the number of histories per family in the quick tier (thorough: x20).
 var QuickCounts = map[string]int{
@@ -29,6 +29,8 @@ func Run(c Cfg) *Result {
 		family = c.Sub
 	}
 	switch family {
+	case "corpus":
+		return runCorpus(c)
 	case "mix":
 		return runMix(c)
 	case "market":
